@@ -124,7 +124,7 @@ def _judge(op, dim, res, backend, cellkey, label, self_l, args, got, f64):
         if not mpmath.isfinite(exp):
             res.count("skip_definition_not_finite")
             return
-        err = E.rel_error(op, got, exp, unit, gain)
+        err = E.rel_error(op, got, exp, unit, gain) / E.cond_gain(op, self_l, args, accept, f64)
     if err > violate:
         km = knownmech.classify(op, self_l, args, got_scalar_is_zero=(op.result != "vec" and got == 0))
         if km:
